@@ -955,10 +955,10 @@ func C01(t Tier) int {
 	run := report.NewRun("C01", t.Name, "model_checking", "E1+E2")
 	v := aolVariant{ID: "C01", OwnRec: true, Ctl: []string{"NB", "RS", "XI"}}
 	sys := aolSystem(v)
-	dl := deadline(t, 100*time.Second, 15*time.Minute)
-	bounds := []explore.Bounds{{Depth: 4, V: 1, Deadline: dl}}
+	dl := deadline(t, 150*time.Second, 15*time.Minute)
+	bounds := []explore.Bounds{{Depth: 5, V: 1, Deadline: dl}}
 	if t.Thorough {
-		bounds = []explore.Bounds{{Depth: 4, V: 1, Deadline: dl}, {Depth: 5, V: 1, Deadline: dl}, {Depth: 5, V: 2, Deadline: dl}, {Depth: 6, V: 2, Deadline: dl}}
+		bounds = []explore.Bounds{{Depth: 5, V: 1, Deadline: dl}, {Depth: 5, V: 2, Deadline: dl}, {Depth: 6, V: 2, Deadline: dl}, {Depth: 7, V: 2, Deadline: dl}}
 	}
 	RunGraph(run, sys, bounds, 6)
 	// second initial state: topic (A,a) already holds 255 records (genesis-injected), so that the explored appends are
@@ -982,10 +982,10 @@ func C02(t Tier) int {
 	run := report.NewRun("C02", t.Name, "model_checking", "E1+E2")
 	v := aolVariant{ID: "C02", Forged: true, OwnACL: true, Ctl: []string{"NB"}}
 	sys := aolSystem(v)
-	dl := deadline(t, 100*time.Second, 15*time.Minute)
-	bounds := []explore.Bounds{{Depth: 4, V: 1, Deadline: dl}}
+	dl := deadline(t, 150*time.Second, 15*time.Minute)
+	bounds := []explore.Bounds{{Depth: 5, V: 1, Deadline: dl}}
 	if t.Thorough {
-		bounds = []explore.Bounds{{Depth: 4, V: 1, Deadline: dl}, {Depth: 5, V: 1, Deadline: dl}, {Depth: 6, V: 1, Deadline: dl}}
+		bounds = []explore.Bounds{{Depth: 5, V: 1, Deadline: dl}, {Depth: 6, V: 1, Deadline: dl}, {Depth: 6, V: 2, Deadline: dl}, {Depth: 7, V: 2, Deadline: dl}}
 	}
 	RunGraph(run, sys, bounds, 8)
 	run.Assumptions = []string{
@@ -998,13 +998,13 @@ func C02(t Tier) int {
 
 func C13(t Tier) int {
 	run := report.NewRun("C13", t.Name, "model_checking", "E1+E2")
-	dl := deadline(t, 100*time.Second, 15*time.Minute)
+	dl := deadline(t, 150*time.Second, 15*time.Minute)
 	A := world.NewAccount("A")
 	_ = A
 	injects := []*aolInject{nil, c13Inject()}
-	depth := 4
+	depth := 5
 	if t.Thorough {
-		depth = 5
+		depth = 6
 	}
 	for i, in := range injects {
 		v := aolVariant{ID: fmt.Sprintf("C13/init%d", i), OwnCount: true, Ctl: []string{"NB", "XI"}, Inject: in}
